@@ -9,7 +9,7 @@ def gen_pkts(rng, n, start=1):
         out.append([start + i, k])
     return out
 
-def rand_case(rng, variant, max_cons=3, max_pkts=12, max_len=70, with_close=True, maxq=1000):
+def rand_case(rng, variant, max_cons=3, max_pkts=12, max_len=70, with_close=True, maxq=1000, panic_p=0.15):
     n = rng.randint(1, max_cons)
     pkts = gen_pkts(rng, rng.randint(0, max_pkts))
     stop = [rng.random() < 0.4 for _ in range(n)]
@@ -25,7 +25,8 @@ def rand_case(rng, variant, max_cons=3, max_pkts=12, max_len=70, with_close=True
         if rng.random() < 0.5 and sched:        # bursts of the same thread make progress through multi-step ops
             k, c = sched[-1]
         sched.append([k, c])
-    return [variant, n, maxq, gop, pkts, stop, sched]
+    panic = [rng.randint(1, 4) if rng.random() < panic_p else 0 for _ in range(n)]
+    return [variant, n, maxq, gop, pkts, stop, sched, panic]
 
 def drain(n, rounds=6):
     """suffix that lets every thread run to completion (fair round robin)"""
